@@ -122,6 +122,30 @@ def obligations(tier, seed):
   if (a != INT32_MIN) CHECK((i64)w_abs(a) == (a < 0 ? -(i64)a : (i64)a), "abs-is-raw-abs");
   if (b <= c) CHECK((i64)w_clamp(a, b, c) == (A < B ? B : (A > c ? (i64)c : A)), "clamp-in-common-unit");
 '''
+    # clamp / min / max with DIFFERENT reps: the result lives in the common rep of all operands
+    wclm = Wrapper('w_clamp_mixed', 'int64_t', [('int32_t', 'a'), ('int32_t', 'b'), ('int64_t', 'c')],
+                   'return au::clamp(au::make_quantity<au::Feet>(a), au::make_quantity<au::Feet>(b), au::make_quantity<au::Inches>(c)).in(%s{});' % cu)
+    wclm2 = Wrapper('w_clamp_mixed_lo', 'int64_t', [('int32_t', 'a'), ('int64_t', 'b'), ('int32_t', 'c')],
+                    'return au::clamp(au::make_quantity<au::Feet>(a), au::make_quantity<au::Inches>(b), au::make_quantity<au::Feet>(c)).in(%s{});' % cu)
+    wmaxm = Wrapper('w_max_mixed', 'int64_t', [('int32_t', 'a'), ('int64_t', 'c')], 'return au::max(au::make_quantity<au::Feet>(a), au::make_quantity<au::Inches>(c)).in(%s{});' % cu)
+    wminm = Wrapper('w_min_mixed', 'int64_t', [('int64_t', 'c'), ('int32_t', 'a')], 'return au::min(au::make_quantity<au::Inches>(c), au::make_quantity<au::Feet>(a)).in(%s{});' % cu)
+    bodym = '''
+  ASSUME(c >= -1000000000000LL && c <= 1000000000000LL);
+  i64 A = (i64)a * 12, B = (i64)b * 12, C = c;
+  if (B <= C) CHECK((i64)w_clamp_mixed(a, b, c) == (A < B ? B : (A > C ? C : A)), "clamp-with-a-wider-upper-bound-rep");
+  CHECK((i64)w_max_mixed(a, c) == (A > C ? A : C), "max-with-mixed-reps");
+  CHECK((i64)w_min_mixed(c, a) == (A < C ? A : C), "min-with-mixed-reps");
+'''
+    obs.append(Ob(id='C15.minmax-mixedrep', prop='C15', group='C15.minmax', prelude=PRE, wrappers=[wclm, wmaxm, wminm], inputs=[('int32_t', 'a'), ('int32_t', 'b'), ('int64_t', 'c')],
+                  body=bodym, contract='forall a, b: int32 feet, c: int64 inches (|c| <= 10^12): clamp(v, lo, hi), max, min with a wider rep on one operand equal the operation on '
+                                       'the exactly scaled values in the common unit AND the common rep (int64)', functions_under_contract=('au::clamp', 'au::max', 'au::min')))
+    bodym2 = '''
+  ASSUME(b >= -1000000000000LL && b <= 1000000000000LL);
+  i64 A = (i64)a * 12, B = b, C = (i64)c * 12;
+  if (B <= C) CHECK((i64)w_clamp_mixed_lo(a, b, c) == (A < B ? B : (A > C ? C : A)), "clamp-with-a-wider-lower-bound-rep");
+'''
+    obs.append(Ob(id='C15.clamp-mixedrep-lo', prop='C15', group='C15.minmax', prelude=PRE, wrappers=[wclm2], inputs=[('int32_t', 'a'), ('int64_t', 'b'), ('int32_t', 'c')],
+                  body=bodym2, contract='clamp with the wider rep on the lower bound: result in the common rep', functions_under_contract=('au::clamp',)))
     obs.append(Ob(id='C15.minmax.i32_ft_in', prop='C15', group='C15.minmax', prelude=PRE, wrappers=[wmax, wmin, wabs, wcl], inputs=[(ct, 'a'), (ct, 'b'), (ct, 'c')], body=body,
                   contract='forall a (feet), b, c (inches) with a*12 in range: max/min/clamp equal the operation on the exactly scaled values in the common unit (inches); abs is raw abs',
                   functions_under_contract=('au::max', 'au::min', 'au::clamp', 'au::abs')))
